@@ -201,6 +201,32 @@ def _capacity_test(test, c):
     return None
 
 
+def _helper_capacity(repo, call):
+    """is ``call`` a call of an OdeSystem method whose body unconditionally runs `if counter + k >= len(buffer): ...allocate...`
+    (parameters replaced by the actual arguments)?"""
+    try:
+        fn = repo.get(DS, "OdeSystem." + dotted(call.func).split(".", 1)[1])
+    except (AnalysisError, KeyError):
+        return False
+    if not isinstance(fn, ast.FunctionDef):
+        return False
+    params = [a.arg for a in fn.args.args]
+    if params and params[0] == "self":
+        params = params[1:]
+    env = dict(zip(params, call.args))
+    for k in call.keywords:
+        if k.arg:
+            env[k.arg] = k.value
+    c = Canon(env=env)
+    for st in fn.body:
+        if isinstance(st, ast.If) and _capacity_test(st.test, c) is not None and any(
+                isinstance(x, ast.Call) and dotted(x.func) == "self.__allocate_soln_space" for x in ast.walk(st)):
+            return True
+        if any(isinstance(x, (ast.Return, ast.Raise)) for x in ast.walk(st)):
+            return False
+    return False
+
+
 def capacity(repo, run, m):
     rid = run.rule("C03.3", "a capacity test `counter + k >= len(buffer)` that allocates dominates every row write", floor=2)
     c = m.canon
@@ -208,6 +234,10 @@ def capacity(repo, run, m):
     for st in walk_no_nested(m.loop):
         if isinstance(st, ast.If) and _capacity_test(st.test, c) is not None and any(
                 isinstance(x, ast.Call) and dotted(x.func) == "self.__allocate_soln_space" for x in ast.walk(st)):
+            checks.append(st)
+        # the same test moved into a helper method of the class: self.<helper>(args) whose body is the capacity test
+        if isinstance(st, ast.Expr) and isinstance(st.value, ast.Call) and (dotted(st.value.func) or "").startswith("self.") and \
+                (dotted(st.value.func) or "").count(".") == 1 and _helper_capacity(repo, st.value):
             checks.append(st)
     groups = {}
     for w in m.row_writes:
